@@ -335,6 +335,23 @@ theorem split_good_ok {c : Chunk} {t : Int} (hg : c.good = true)
       fun x hx => ⟨hr x hx, (hin x (by rw [← ha]; simp [hx])).2⟩
     exact ⟨_, _, split_simple_ok hsub hsup h0 hst hts hin1 hin2 hv⟩
 
+/-- time `t` touches no row (not even an endpoint): a boundary strictly inside a row-free gap -/
+def CleanCut (rows : List Row) (t : Int) : Prop := ∀ x ∈ rows, ¬ (x.time ≤ t ∧ t ≤ x.endt)
+
+theorem cleanCut_append {a b : List Row} {t : Int} (ha : CleanCut a t) (hb : CleanCut b t) :
+    CleanCut (a ++ b) t := by
+  intro x hx
+  simp only [List.mem_append] at hx
+  rcases hx with hx | hx
+  · exact ha x hx
+  · exact hb x hx
+
+theorem good_facts {c : Chunk} (hg : c.good = true) :
+    0 ≤ c.start ∧ c.start ≤ c.stop ∧ ∀ r ∈ c.rows, c.start ≤ r.time ∧ r.endt ≤ c.stop ∧ r.time < r.endt := by
+  simp only [Chunk.good, Bool.and_eq_true] at hg
+  obtain ⟨h0, hse, -, hpos, hin⟩ := (Chunk.wf_iff c).1 hg.1
+  exact ⟨h0, hse, fun r hr => ⟨(hin r hr).1, (hin r hr).2, hpos r hr⟩⟩
+
 /-- cutting a good chunk 500 ns before a row that starts more than 1000 ns after all earlier ends -/
 theorem split_at_gap {c : Chunk} {k : Nat} {r : Row} (hg : c.good = true)
     (hgap : IsGapAbs DEFAULT_CHUNK_SPLIT_NS c.rows k) (hr : c.rows[k]? = some r) :
@@ -343,7 +360,8 @@ theorem split_at_gap {c : Chunk} {k : Nat} {r : Row} (hg : c.good = true)
         (⟨c.dataType, c.kind, some rid, c.start, t', c.rows.take k, none, [⟨rid, c.start, t'⟩], c.target⟩,
          ⟨c.dataType, c.kind, some rid, t', c.stop, c.rows.drop k, none, [⟨rid, t', c.stop⟩], c.target⟩) ∧
       Chunk.good ⟨c.dataType, c.kind, some rid, c.start, t', c.rows.take k, none, [⟨rid, c.start, t'⟩], c.target⟩ = true ∧
-      Chunk.good ⟨c.dataType, c.kind, some rid, t', c.stop, c.rows.drop k, none, [⟨rid, t', c.stop⟩], c.target⟩ = true := by
+      Chunk.good ⟨c.dataType, c.kind, some rid, t', c.stop, c.rows.drop k, none, [⟨rid, t', c.stop⟩], c.target⟩ = true ∧
+      c.start < t' ∧ t' < c.stop ∧ CleanCut c.rows t' := by
   have hg' := hg
   simp only [Chunk.good, Bool.and_eq_true] at hg'
   obtain ⟨hwf, hsimple⟩ := hg'
@@ -417,31 +435,38 @@ theorem split_at_gap {c : Chunk} {k : Nat} {r : Row} (hg : c.good = true)
         omega)
   rw [huniq.1] at hc1
   rw [huniq.2] at hc2
-  refine ⟨rid, t'', hrid, hst, hts, ?_, ?_, ?_⟩
+  refine ⟨rid, t'', hrid, hst, hts, ?_, ?_, ?_, by omega, by omega, ?_⟩
   · rw [hsplit, hc1, hc2]
   · rw [← hc1]; exact hg1
   · rw [← hc2]; exact hg2
+  · intro x hx
+    rw [← hrows] at hx
+    simp only [List.mem_append] at hx
+    rcases hx with hx | hx
+    · have := hbefore x hx; omega
+    · have := hafter x hx; omega
 
 theorem splitOff_good : ∀ (ks : List Nat) (c : Chunk), c.good = true →
     GapsRel DEFAULT_CHUNK_SPLIT_NS c.rows ks →
     ∃ out rest, splitOff c ks = .ok (out, rest) ∧ LawAbiding (out ++ [rest]) = true ∧
       (out ++ [rest]).flatMap (·.rows) = c.rows ∧
       (∃ h, (out ++ [rest]).head? = some h ∧ h.start = c.start) ∧ rest.stop = c.stop ∧
-      ∀ x ∈ out ++ [rest], x.dataType = c.dataType ∧ x.runId = c.runId ∧ x.target = c.target := by
+      (∀ x ∈ out ++ [rest], x.dataType = c.dataType ∧ x.runId = c.runId ∧ x.target = c.target) ∧
+      ∀ t ∈ ((out ++ [rest]).map (·.start)).tail, c.start < t ∧ t < c.stop ∧ CleanCut c.rows t := by
   intro ks
   induction ks with
   | nil =>
     intro c hg _
-    refine ⟨[], c, rfl, by simpa [LawAbiding] using hg, by simp, ⟨c, by simp, rfl⟩, rfl, by simp⟩
+    refine ⟨[], c, rfl, by simpa [LawAbiding] using hg, by simp, ⟨c, by simp, rfl⟩, rfl, by simp, by simp⟩
   | cons k ks ih =>
     intro c hg hrel
     obtain ⟨hgap, hrel'⟩ := hrel
     obtain ⟨-, r, hr, -⟩ := id hgap
-    obtain ⟨rid, t', hrid, hst, hts, hsplit, hga, hgb⟩ := split_at_gap hg hgap hr
-    obtain ⟨out, rest, hoff, hlaw, hrows, ⟨h, hh, hhs⟩, hstop, hall⟩ := ih _ hgb hrel'
+    obtain ⟨rid, t', hrid, hst, hts, hsplit, hga, hgb, hlt1, hlt2, hclean⟩ := split_at_gap hg hgap hr
+    obtain ⟨out, rest, hoff, hlaw, hrows, ⟨h, hh, hhs⟩, hstop, hall, hcuts⟩ := ih _ hgb hrel'
     refine ⟨(⟨c.dataType, c.kind, some rid, c.start, t', c.rows.take k, none, [⟨rid, c.start, t'⟩],
       c.target⟩ : Chunk) :: out, rest, ?_, ?_, ?_, ⟨(⟨c.dataType, c.kind, some rid, c.start, t', c.rows.take k,
-      none, [⟨rid, c.start, t'⟩], c.target⟩ : Chunk), by simp, rfl⟩, hstop, ?_⟩
+      none, [⟨rid, c.start, t'⟩], c.target⟩ : Chunk), by simp, rfl⟩, hstop, ?_, ?_⟩
     · unfold splitOff
       rw [hr]
       simp only [bind, Except.bind, hsplit, hoff, pure, Except.pure]
@@ -461,6 +486,28 @@ theorem splitOff_good : ∀ (ks : List Nat) (c : Chunk), c.good = true →
       · exact ⟨rfl, hrid.symm, rfl⟩
       · have := hall x hx
         exact ⟨this.1, by rw [this.2.1, hrid], this.2.2⟩
+    · obtain ⟨l', hl'⟩ : ∃ l', out ++ [rest] = h :: l' := by
+        cases hx : out ++ [rest] with
+        | nil => simp at hx
+        | cons a l => rw [hx] at hh; simp at hh; subst hh; exact ⟨l, rfl⟩
+      intro t ht
+      simp only [List.cons_append, List.map_cons, List.tail_cons] at ht
+      rw [hl'] at ht hcuts
+      simp only [List.map_cons, List.tail_cons, List.mem_cons] at ht hcuts
+      rcases ht with rfl | ht
+      · rw [hhs]
+        exact ⟨hlt1, hlt2, hclean⟩
+      · obtain ⟨c1, c2, c3⟩ := hcuts t ht
+        try simp only at c1 c2 c3
+        refine ⟨by omega, c2, ?_⟩
+        have hfa := (good_facts hga).2.2
+        try simp only at hfa
+        intro x hx
+        rw [← List.take_append_drop k c.rows] at hx
+        simp only [List.mem_append] at hx
+        rcases hx with hx | hx
+        · have := hfa x hx; omega
+        · exact c3 x hx
 
 /-- absolute, strictly increasing cut positions give relative gap positions -/
 theorem gapsRel_of_abs (g : Int) (rows : List Row) : ∀ (tl : List Nat) (s0 : Nat),
@@ -549,25 +596,62 @@ theorem receive_concat (cache : Option Chunk) (c : Chunk) (cs : List Chunk)
     · simp [chunkKey, hrid]
     · simp only; rw [← hrun, hrid]
 
-theorem rechunk_aux : ∀ (cs : List Chunk) (cache : Option Chunk),
+theorem lawAbiding_later : ∀ (cs : List Chunk) (c : Chunk), LawAbiding (c :: cs) = true →
+    ∀ x ∈ cs, c.stop ≤ x.start ∧ x.good = true := by
+  intro cs
+  induction cs with
+  | nil => intro c _ x hx; simp at hx
+  | cons d ds ih =>
+    intro c h x hx
+    obtain ⟨-, hlink, hrest⟩ := (lawAbiding_cons c (d :: ds)).1 h
+    have hd := (lawAbiding_cons d ds).1 hrest
+    have hcd := (hlink d (by simp)).1
+    simp only [List.mem_cons] at hx
+    rcases hx with rfl | hx
+    · exact ⟨by omega, hd.1⟩
+    · have h1 := ih d hrest x hx
+      have := (good_facts hd.1).2.1
+      exact ⟨by omega, h1.2⟩
+
+theorem lawAbiding_before_last (xs : List Chunk) (r : Chunk) (h : LawAbiding (xs ++ [r]) = true) :
+    ∀ x ∈ xs, x.good = true ∧ x.stop ≤ r.start := by
+  induction xs with
+  | nil => intro x hx; simp at hx
+  | cons y ys ih =>
+    simp only [List.cons_append] at h
+    obtain ⟨hy, -, hrest⟩ := (lawAbiding_cons y (ys ++ [r])).1 h
+    intro x hx
+    simp only [List.mem_cons] at hx
+    rcases hx with rfl | hx
+    · exact ⟨hy, (lawAbiding_later _ _ h r (by simp)).1⟩
+    · exact ih hrest x hx
+
+/-- The stream invariant of the rechunker: feeding a law-abiding stream (with an optional cached
+remainder in front) succeeds; rows, head identity and last stop are preserved; and every interior
+boundary of the output lies strictly after the first start and touches no row of the input. -/
+theorem rechunk_aux_strong : ∀ (cs : List Chunk) (cache : Option Chunk),
     LawAbiding (cache.toList ++ cs) = true → (∀ c ∈ cache.toList ++ cs, 1 ≤ c.target) →
     ∃ out, rechunkAll (-1) ⟨true, false, cache⟩ cs = .ok out ∧ LawAbiding out = true ∧
       out.flatMap (·.rows) = (cache.toList ++ cs).flatMap (·.rows) ∧
       out.head?.map chunkKey = (cache.toList ++ cs).head?.map chunkKey ∧
-      out.getLast?.map (·.stop) = (cache.toList ++ cs).getLast?.map (·.stop) := by
+      out.getLast?.map (·.stop) = (cache.toList ++ cs).getLast?.map (·.stop) ∧
+      ∀ t ∈ (out.map (·.start)).tail,
+        (∀ h0, (cache.toList ++ cs).head? = some h0 → h0.start < t) ∧
+        CleanCut ((cache.toList ++ cs).flatMap (·.rows)) t := by
   intro cs
   induction cs with
   | nil =>
     intro cache hlaw _
     cases cache with
-    | none => exact ⟨[], rfl, rfl, rfl, rfl, rfl⟩
-    | some k => exact ⟨[k], rfl, by simpa using hlaw, by simp, by simp, by simp⟩
+    | none => exact ⟨[], rfl, rfl, rfl, rfl, rfl, by simp⟩
+    | some k => exact ⟨[k], rfl, by simpa using hlaw, by simp, by simp, by simp, by simp⟩
   | cons c cs ih =>
     intro cache hlaw htg
     obtain ⟨c', hc', hgood, htg', hrows', hkey', hstop', hty', hrun', hlawc⟩ :=
       receive_concat cache c cs hlaw htg
     obtain ⟨s, hs, hrel⟩ := getSplits_gapsRel c'.rows c'.target htg'
-    obtain ⟨out, rest, hoff, hlawo, hrowso, ⟨h, hh, hhs⟩, hstopo, hall⟩ := splitOff_good _ c' hgood hrel
+    obtain ⟨out, rest, hoff, hlawo, hrowso, ⟨h, hh, hhs⟩, hstopo, hall, hcutso⟩ :=
+      splitOff_good _ c' hgood hrel
     have hrest := hall rest (by simp)
     have hrestgood := lawAbiding_last_good out rest hlawo
     obtain ⟨-, hlinkc, hlawcs⟩ := (lawAbiding_cons c cs).1 hlawc
@@ -584,16 +668,16 @@ theorem rechunk_aux : ∀ (cs : List Chunk) (cache : Option Chunk),
       rcases hx with rfl | hx
       · omega
       · exact htg x (by simp [hx])
-    obtain ⟨out2, hout2, hlaw2', hrows2, hkey2, hlast2⟩ := ih (some rest) hlaw2 htg2
+    obtain ⟨out2, hout2, hlaw2', hrows2, hkey2, hlast2, hcuts2⟩ := ih (some rest) hlaw2 htg2
     simp only [Option.toList_some, List.cons_append, List.nil_append, List.head?_cons, Option.map_some,
-      List.flatMap_cons] at hrows2 hkey2 hlast2
+      List.flatMap_cons] at hrows2 hkey2 hlast2 hcuts2
     obtain ⟨h2, hh2⟩ : ∃ h2, out2.head? = some h2 := by
       cases hx : out2.head? with
       | none => rw [hx] at hkey2; simp at hkey2
       | some h2 => exact ⟨h2, rfl⟩
     rw [hh2] at hkey2
     simp only [Option.map_some, Option.some.injEq, chunkKey, Prod.mk.injEq] at hkey2
-    refine ⟨out ++ out2, ?_, ?_, ?_, ?_, ?_⟩
+    refine ⟨out ++ out2, ?_, ?_, ?_, ?_, ?_, ?_⟩
     · simp only [rechunkAll, Rechunker.receive, Bool.not_true, Bool.false_eq_true, if_false]
       cases cache with
       | none =>
@@ -631,5 +715,76 @@ theorem rechunk_aux : ∀ (cs : List Chunk) (cache : Option Chunk),
       cases cs with
       | nil => simp; omega
       | cons d ds => simp [List.getLast?_cons_cons]
+    · -- interior boundaries
+      have hh0 : ∀ h0, (cache.toList ++ c :: cs).head? = some h0 → h0.start = c'.start := by
+        intro h0 e
+        rw [e] at hkey'
+        simp only [Option.map_some, Option.some.injEq, chunkKey, Prod.mk.injEq] at hkey'
+        exact hkey'.1
+      have hrowsAll : (cache.toList ++ c :: cs).flatMap (·.rows) = c'.rows ++ cs.flatMap (·.rows) := by
+        rw [hrows']; simp
+      have hbefore := lawAbiding_before_last out rest hlawo
+      have hlater := lawAbiding_later cs c hlawc
+      have hcs : ∀ t, t < c.stop → CleanCut (cs.flatMap (·.rows)) t := by
+        intro t ht x hx
+        simp only [List.mem_flatMap] at hx
+        obtain ⟨y, hy, hxy⟩ := hx
+        have h1 := hlater y hy
+        have := (good_facts h1.2).2.2 x hxy
+        omega
+      have hstart_le : c'.start ≤ rest.start := by
+        have hhm : h ∈ out ++ [rest] := List.mem_of_mem_head? hh
+        simp only [List.mem_append, List.mem_singleton] at hhm
+        rcases hhm with hm | hm
+        · have h1 := hbefore h hm
+          have := (good_facts h1.1).2.1
+          omega
+        · rw [hm] at hhs; omega
+      obtain ⟨o2, ho2⟩ : ∃ o2, out2 = h2 :: o2 := by
+        cases out2 with
+        | nil => simp at hh2
+        | cons a l => simp at hh2; subst hh2; exact ⟨l, rfl⟩
+      intro t ht
+      have hmem : t ∈ ((out ++ [rest]).map (·.start)).tail ∨ t ∈ (out2.map (·.start)).tail := by
+        rw [ho2] at ht ⊢
+        cases out with
+        | nil =>
+          right
+          simpa using ht
+        | cons o os =>
+          simp only [List.cons_append, List.map_cons, List.tail_cons, List.map_append, List.mem_append,
+            List.mem_cons, List.map_nil, List.not_mem_nil, or_false] at ht ⊢
+          rcases ht with h' | h' | h'
+          · left; left; exact h'
+          · left; right; rw [h', hkey2.1]
+          · right; exact h'
+      rw [hrowsAll]
+      rcases hmem with hm | hm
+      · obtain ⟨c1, c2, c3⟩ := hcutso t hm
+        exact ⟨fun h0 e => by rw [hh0 h0 e]; exact c1, cleanCut_append c3 (hcs t (by omega))⟩
+      · obtain ⟨d1, d2⟩ := hcuts2 t hm
+        have d1' : rest.start < t := d1 rest rfl
+        refine ⟨fun h0 e => by rw [hh0 h0 e]; omega, ?_⟩
+        apply cleanCut_append
+        · intro x hx
+          rw [← hrowso] at hx
+          simp only [List.flatMap_append, List.mem_append, List.flatMap_cons, List.flatMap_nil,
+            List.append_nil, List.mem_flatMap] at hx
+          rcases hx with ⟨y, hy, hxy⟩ | hx
+          · have h1 := hbefore y hy
+            have := (good_facts h1.1).2.2 x hxy
+            omega
+          · exact d2 x (by simp [hx])
+        · intro x hx
+          exact d2 x (by simp [hx])
+
+theorem rechunk_aux (cs : List Chunk) (cache : Option Chunk)
+    (hlaw : LawAbiding (cache.toList ++ cs) = true) (htg : ∀ c ∈ cache.toList ++ cs, 1 ≤ c.target) :
+    ∃ out, rechunkAll (-1) ⟨true, false, cache⟩ cs = .ok out ∧ LawAbiding out = true ∧
+      out.flatMap (·.rows) = (cache.toList ++ cs).flatMap (·.rows) ∧
+      out.head?.map chunkKey = (cache.toList ++ cs).head?.map chunkKey ∧
+      out.getLast?.map (·.stop) = (cache.toList ++ cs).getLast?.map (·.stop) := by
+  obtain ⟨out, h1, h2, h3, h4, h5, -⟩ := rechunk_aux_strong cs cache hlaw htg
+  exact ⟨out, h1, h2, h3, h4, h5⟩
 
 end Strax
